@@ -147,6 +147,9 @@ def py_field(fd):
     b = fd['body']
     if b[0] == 'elem':
         s = py_elem(b[1])
+        if b[1][0] == 'refpkt' and fd.get('spell') in ('class', 'instance') and not fd.get('move'):
+            # the documented shorthands: a packet CLASS or a packet INSTANCE written in the class body stands for Ref(..)
+            s = cname(b[1][1]) if (fd['spell'] == 'class' and not b[1][2]) else py_value(('pkt', b[1][1], b[1][2]))
     elif b[0] == 'bits':
         s = f"Bits({b[1]}, default={py_value(b[2])})"
     elif b[0] == 'em':
